@@ -304,6 +304,7 @@ def _havocked(eng, base: State, fi, assigned, fields, refs, events, values_of, d
         hs.heap.c_map = z3.Store(hs.heap.c_map, r, sym.fresh_const("hmap", sym.MapS))
         hs.heap.c_len = z3.Store(hs.heap.c_len, r, sym.fresh_int("hlen"))
         hs.heap.c_seq = z3.Store(hs.heap.c_seq, r, sym.fresh_const("hseq", sym.SeqArrS))
+    new_heaps = []
     for d in values_of:
         # every container stored as a value of dict d may have changed; d itself too
         nd, nm, nl, ns = (z3.Const(sym.fresh_name("Cdom"), hs.heap.c_dom.sort()), z3.Const(sym.fresh_name("Cmap"), hs.heap.c_map.sort()),
@@ -311,12 +312,19 @@ def _havocked(eng, base: State, fi, assigned, fields, refs, events, values_of, d
         r = sym.fresh_int("r")
         kk = sym.fresh_val("k")
         # containers that are not (old or new) values of d and not d itself are unchanged: expressed by an owner ghost
-        owner = z3.Function(sym.fresh_name("owned_by"), sym.IntS, sym.BoolS)
+        # owned = allocated since the loop was entered, or held as a value of d when the loop was entered
+        bdom, bmap = z3.Select(base.heap.c_dom, d.t), z3.Select(base.heap.c_map, d.t)
+        base_next = base.heap.next_ref
+
+        def owner(r_, bdom=bdom, bmap=bmap, base_next=base_next, kk=kk):
+            held = z3.Exists([kk], z3.And(z3.Select(bdom, kk), Val.is_ref(z3.Select(bmap, kk)), Val.rid(z3.Select(bmap, kk)) == r_))
+            return z3.Or(r_ >= base_next, held)
         hs.assume(z3.ForAll([r], z3.Implies(z3.Not(z3.Or(owner(r), r == d.t)), z3.And(
             z3.Select(nd, r) == z3.Select(hs.heap.c_dom, r), z3.Select(nm, r) == z3.Select(hs.heap.c_map, r),
             z3.Select(nl, r) == z3.Select(hs.heap.c_len, r), z3.Select(ns, r) == z3.Select(hs.heap.c_seq, r)))))
         hs.ghost.setdefault("owners", []).append((d, owner))
         hs.heap.c_dom, hs.heap.c_map, hs.heap.c_len, hs.heap.c_seq = nd, nm, nl, ns
+        new_heaps.append((nm, ns))
     if events:
         n = sym.fresh_int("evn")
         hs.assume(n >= base.ev_len)
@@ -328,6 +336,12 @@ def _havocked(eng, base: State, fi, assigned, fields, refs, events, values_of, d
     na = z3.Int(sym.fresh_name("alloc"))
     hs.assume(na >= hs.heap.next_ref)
     hs.heap.next_ref = na
+    for nm, ns in new_heaps:
+        # closure of the havocked heap (same statement as state.closure_axioms for the initial heap): whatever is stored was allocated
+        c_, k_, i_ = z3.Int(sym.fresh_name("cl!c")), z3.Const(sym.fresh_name("cl!k"), Val), z3.Int(sym.fresh_name("cl!i"))
+        e1, e2 = z3.Select(z3.Select(nm, c_), k_), z3.Select(z3.Select(ns, c_), i_)
+        hs.assume(z3.ForAll([c_, k_], z3.And(Val.rid(e1) >= 0, Val.rid(e1) < na), patterns=[e1]))
+        hs.assume(z3.ForAll([c_, i_], z3.And(Val.rid(e2) >= 0, Val.rid(e2) < na), patterns=[e2]))
     # automatic invariants of the ghost iteration variables
     idx_name, seen_name = f"loop{k}_index", f"loop{k}_seen"
     if desc is not None:
